@@ -333,7 +333,7 @@ func c03Judge(b *Bed, q *c03Query) (sig, what string) {
 }
 
 func runC03(c *Ctx) {
-	ups := []string{"udp", "tcp", "pipe", "dot", "dotp", "doh", "dohs", "doq"}
+	ups := []string{"udp", "tcp", "pipe", "dot", "dotp", "doh", "dohs", "h3", "doq"}
 	b, err := NewBed(c, "bed", BedOpts{Upstreams: ups, UdpRcvBuf: 4 << 20})
 	if err != nil {
 		if b != nil && b.Proxy != nil {
@@ -365,7 +365,7 @@ func runC03(c *Ctx) {
 						outcomes = c03Failing
 					}
 					for _, oc := range outcomes {
-						if oc == "http500" && !(up == "doh" || up == "dohs") {
+						if oc == "http500" && !(up == "doh" || up == "dohs" || up == "h3") {
 							continue
 						}
 						seq++
